@@ -23,6 +23,9 @@ type cfgT struct {
 	Headers []string // header names in configuration order; nil = default
 	MaxHops int      // as configured (0 = default 1)
 	Diag    bool     `json:",omitempty"` // router.WithDiagnostics installed (must not change any answer)
+	// Decoy: each option is given twice inside WithTrustedProxies — first with decoy values (trust everything,
+	// another header, another hop limit), then with the real ones. The later option wins.
+	Decoy bool `json:",omitempty"`
 }
 
 type reqT struct {
@@ -73,6 +76,8 @@ var trustedIPs = []string{"10.0.0.1", "10.0.0.2", "10.1.2.3", "127.0.0.1", "192.
 var untrustedIPs = []string{"9.9.9.9", "203.0.113.7", "8.8.8.8", "2001:4860::8888", "172.16.0.9", "1.1.1.1", "11.0.0.1", "::ffff:9.9.9.9"}
 var garbage = []string{"", " ", "unknown", "1.2.3", "1.2.3.4:80", "[::1]:80", "fe80::1%eth0", "999.1.1.1", "a,b", "10.0.0.1 x", "\t10.0.0.2\t", " 9.9.9.9 ", "0x7f.1", "::", "1.2.3.4.5", "_hidden", "127.1", "010.0.0.1", "１.２.３.４"}
 var hdrNames = []string{"X-Forwarded-For", "X-Real-IP", "CF-Connecting-IP", "Fastly-Client-IP", "True-Client-IP"}
+
+const decoyHdr = "X-Decoy"
 
 // uniPad wraps an item in white space of every kind strings.TrimSpace knows, and in look-alikes it must
 // NOT trim (lone Latin-1 bytes, zero-width space, BOM, truncated sequences).
@@ -161,6 +166,7 @@ func genCase(r *hx.Rand) (cfgT, reqT) {
 		c.MaxHops = hx.Pick(r, []int{-1, -100, 6, 50, 1 << 30})
 	}
 	c.Diag = r.Chance(1, 3)
+	c.Decoy = r.Chance(1, 4)
 	var q reqT
 	peer := ""
 	switch r.Intn(10) {
@@ -421,11 +427,24 @@ func emitObs(id string, k caseT, res string, ok bool, st *hx.Stats) string {
 	if st != nil && c.Diag {
 		st.Count("diagnostics_on")
 	}
+	if st != nil && c.Decoy {
+		st.Count("options_given_twice")
+	}
 	return l.String() + hx.Comment(k)
 }
 
 func newRouter(c cfgT) *router.Router {
-	opts := []router.TrustedProxyOption{router.WithProxies(c.Cidrs...)}
+	var opts []router.TrustedProxyOption
+	if c.Decoy {
+		opts = append(opts, router.WithProxies("0.0.0.0/0", "::/0"))
+		if c.Headers != nil {
+			opts = append(opts, router.WithProxyHeaders(router.RealIPHeader("X-Decoy"), router.HeaderXFF))
+		}
+		if c.MaxHops != 0 {
+			opts = append(opts, router.WithProxyMaxHops(7))
+		}
+	}
+	opts = append(opts, router.WithProxies(c.Cidrs...))
 	if c.Headers != nil {
 		hs := make([]router.RealIPHeader, len(c.Headers))
 		for i, h := range c.Headers {
@@ -445,6 +464,7 @@ func newRouter(c cfgT) *router.Router {
 
 func applyReq(req *http.Request, q reqT) {
 	req.RemoteAddr = q.Remote
+	req.Header.Set(decoyHdr, "6.6.6.66") // never configured for real: must have no influence
 	for _, h := range hdrNames {
 		req.Header.Del(h)
 	}
